@@ -760,6 +760,10 @@ func (e *Exec) evalCall(x ECall, env *Env) Val {
 		v := arg(0)
 		h, hs := e.elemHeap(types.Typ[types.Uint8])
 		return Val{T: "(key48 " + Sel(e.get(env.st, h, hs), e.sbase(v.T)) + " " + e.soff(v.T) + " " + e.slen(v.T) + ")", S: ArrSort(SInt, SInt), Ty: types.NewArray(types.Typ[types.Uint8], 48)}
+	case "bkey48":
+		// bkey48(b): the [48]byte value obtained by copying the bytes b into a zeroed [48]byte
+		b := arg(0)
+		return Val{T: "(key48 (barr " + b.T + ") 0 (blen " + b.T + "))", S: ArrSort(SInt, SInt), Ty: types.NewArray(types.Typ[types.Uint8], 48)}
 	case "withtag":
 		// withtag(a, t): the [N+1]byte array made of the [N]byte array a followed by the byte t
 		v := arg(0)
